@@ -182,8 +182,21 @@ def container_eq(I, a, b):
     return all(contains(I, b, unwrap_key(x)) for x in a)
 
 
+def _orderable(x):
+    from .models_tahoe import DStub
+    return not isinstance(x, DStub) and not (isinstance(x, SObj) and I_class_attr_lt(x) is None)
+
+
+def I_class_attr_lt(x):
+    try:
+        return getattr(x.cls, "__lt__", None) if getattr(x.cls, "__lt__", None) is not object.__lt__ else None
+    except Exception:       # noqa
+        return None
+
+
 def lex_compare(I, name, a, b):
-    # lexicographic comparison of two sequences of ints/strings
+    """lexicographic comparison of two sequences, element by element from the left as Python does it: elements after the
+    first differing position are never compared, and a pair that cannot be ordered raises TypeError when it is reached"""
     def lt(x, y):
         return M.compare(I, ast.Lt(), x, y)
     n = min(len(a), len(b))
@@ -195,8 +208,18 @@ def lex_compare(I, name, a, b):
     prefix = []
     for i in range(n):
         e = M.values_equal(I, a[i], b[i])
+        if e is True:
+            continue
+        if not (_orderable(a[i]) and _orderable(b[i])):
+            # reached only if everything before is equal
+            reach = z3.And([to_z3_bool(p) for p in prefix]) if prefix else z3.BoolVal(True)
+            if I.path.branch(reach):
+                raise PyRaise(TypeError("'<' not supported between instances of %r and %r" % (type(a[i]).__name__, type(b[i]).__name__)), TypeError)
+            return norm_bool(z3.Or(terms)) if terms else False
         l = lt(a[i], b[i])
         terms.append(z3.And([to_z3_bool(p) for p in prefix] + [to_z3_bool(l)]))
+        if e is False:
+            return norm_bool(z3.Or(terms))
         prefix.append(e)
     tail = (len(a) < len(b)) if strict else (len(a) <= len(b))
     terms.append(z3.And([to_z3_bool(p) for p in prefix] + [z3.BoolVal(tail)]))
